@@ -13,6 +13,7 @@ import Dirk.Model.Transport
 import Dirk.Model.Handler
 import Dirk.Spec.Listing
 import Dirk.Spec.Lifecycle
+import Dirk.Model.ListerShape
 
 namespace Driver
 open Dirk
@@ -664,6 +665,12 @@ def dstepCore (st : DState) (line : String) : DState × Option String :=
       let body := if pat.isEmpty then ".*" else pat
       let anch (r : Re) : Re := Re.cat (Re.cat (Re.cat Re.eps Re.bol) r) Re.eol
       (st, some (if ReParse.parse (regexify pat) == (ReParse.parse ("(?i)" ++ body)).map anch then "ok" else "DIFFERS"))
+    | none => bad st line
+  -- hypothesis of C18_complete_whole_name, evaluated: the lister's anchored string parses to the AST of the
+  -- pattern with the assertions put where `listerAnchor` put `^` / `$`
+  | ["jlshape", pat] =>
+    match unhexStr pat with
+    | some pat => (st, some (if decide (ListerShapeOKGen pat) then "ok" else "DIFFERS"))
     | none => bad st line
   -- judge C07: the implementation answered `res` to Check(client, account, op): does the Lean
   -- specification (first bearing item, whole-name matching) say the same?
